@@ -356,23 +356,27 @@ def resolveActionConflicts (fuel : Nat) (actionable : List Key) : M (List Key) :
         if eventIsEqual winning competing then
           match winning.kind, winning.actionUid, competing.kind, competing.actionUid with
           | .action, some wu, .action, some cu =>
-            let x ← getInstX k.1
-            for (key, v) in x.context do
-              match v with
-              | .ref "action" u =>
-                if u = cu then
-                  match ← getAction? wu with
-                  | some a => setAction { a with scopeCount := a.scopeCount + 1 }
-                  | none => pyRaise "KeyError" wu
-                  modInstX k.1 fun y => { y with context := setArg key (.ref "action" wu) y.context }
-              | _ => pure ()
-            if !x.actionUids.contains cu then pyRaise "ValueError" "is not in list"
-            let rec replaceFirst : List String → List String
-              | [] => []
-              | y :: ys => if y = cu then wu :: ys else y :: replaceFirst ys
-            modInstX k.1 fun y => { y with actionUids := replaceFirst y.actionUids }
-            if (← getAction? cu).isNone then pyRaise "KeyError" cu
-            modifyRest fun r => { r with actions := OMap.erase cu r.actions }
+            if cu ≠ wu then
+              let x ← getInstX k.1
+              for (key, v) in x.context do
+                match v with
+                | .ref "action" u =>
+                  if u = cu then
+                    match ← getAction? wu with
+                    | some a => setAction { a with scopeCount := a.scopeCount + 1 }
+                    | none => pyRaise "KeyError" wu
+                    modInstX k.1 fun y => { y with context := setArg key (.ref "action" wu) y.context }
+                | _ => pure ()
+              if !x.actionUids.contains cu then pyRaise "ValueError" "is not in list"
+              let rec replaceFirst : List String → List String
+                | [] => []
+                | y :: ys => if y = cu then wu :: ys else y :: replaceFirst ys
+              modInstX k.1 fun y => { y with actionUids := replaceFirst y.actionUids }
+              -- REPAIRED behaviour (fixes/C09-scope-action-uid.diff; on the unpatched tree this is the region of the open
+              -- finding `dangling-scope-action`): scopes that registered the replaced action refer to the winning one
+              modInstX k.1 fun y => { y with scopes := y.scopes.map fun (n, (fl, al)) => (n, (fl, al.map fun u => if u = cu then wu else u)) }
+              if (← getAction? cu).isNone then pyRaise "KeyError" cu
+              modifyRest fun r => { r with actions := OMap.erase cu r.actions }
           | _, _, _, _ => pure ()
           advancing := advancing ++ [k]
         else
@@ -406,14 +410,21 @@ def processEvent (fuel : Nat) (event : Event) (actionable : List Key) : M (List 
   let cands ← getAllHeadCandidates event.ev.name
   let mut headsMatching : List Key := []
   let mut headsFailing : List Key := []
+  let mut headsErroring : List Key := []
   for k in cands do
     let some i ← getInst? k.1 | pyRaise "KeyError" k.1
     let some hd := i.findHead k.2 | pyRaise "KeyError" k.2
     let cfg ← cfgOfInst k.1
     match cfg.elements[hd.pos]? with
     | some (.matchOp spec _) =>
-      match ← eventMatchingScore k.1 spec event with
-      | .matched sc =>
+      let outcome ← attemptPy (eventMatchingScore k.1 spec event)
+      match outcome with
+      | .error (c, m) =>
+        -- a runtime error while evaluating the match statement fails only the flow of this head
+        pushEvent (colangErrorEvent c m)
+        modifyRest fun r => { r with caught := r.caught ++ [s!"match: {c}: {m}"] }
+        headsErroring := headsErroring ++ [k]
+      | .ok (.matched sc) =>
         modHeadX k fun y => { y with scores := event.scores ++ [sc] }
         headsMatching := headsMatching ++ [k]
         if event.ev.name = "StartFlow" then handled := handled ++ ["all_loops"]
@@ -421,8 +432,8 @@ def processEvent (fuel : Nat) (event : Event) (actionable : List Key) : M (List 
           match (← getInstX k.1).loopId with
           | some l => handled := handled ++ [l]
           | none => pyRaise "AssertionError" "loop_id"
-      | .failed => headsFailing := headsFailing ++ [k]
-      | .noMatch => pure ()
+      | .ok .failed => headsFailing := headsFailing ++ [k]
+      | .ok .noMatch => pure ()
     | _ => pure ()
   -- unhandled event
   let unhandled := activeLoops.filter fun l => match l with
@@ -446,6 +457,7 @@ def processEvent (fuel : Nat) (event : Event) (actionable : List Key) : M (List 
       setHeadPos k (← labelPos cfg l)
       headsMatching := headsMatching ++ [k]
     | none => abortFlow fuel k.1 [] false
+  for k in headsErroring do abortFlow fuel k.1 [] false
   let mut actionable := actionable
   for nh in ← advanceHeadFront fuel headsMatching do
     if !actionable.contains nh then actionable := actionable ++ [nh]
